@@ -2,8 +2,8 @@
 
 Fault enumeration over Connection-level histories on a programmable fake DBAPI
 (vf/mon/poolrig_gg.py), postgresql+psycopg2 and mysql+pymysql dialects (each dialect's own
-``is_disconnect`` classifies the injected error), QueuePool(3) pre-filled with idle
-connections "opened before the failure", virtual clock in sqlalchemy.pool.base.
+``is_disconnect`` classifies the injected error), QueuePool (size 2-4, overflow 0/1, FIFO/LIFO, pool_recycle unset or far above any age)
+pre-filled with idle connections "opened before the failure", virtual clock in sqlalchemy.pool.base.
 
   history  = ops on one Connection: exec, begin, begin_nested, savepoint release /
              rollback, commit, rollback, close + reconnect, "other" (a second Connection of
@@ -123,8 +123,11 @@ class Run:
 
         with virtual_time(self.clock), warnings.catch_warnings():
             warnings.simplefilter("ignore")
-            rig = Rig(self.dialect, plan={}, clock=self.clock, poolclass=sp.QueuePool, pool_size=3, max_overflow=0,
-                      pool_timeout=0, pool_use_lifo=self.lifo)
+            pc = self.lifo if isinstance(self.lifo, dict) else {"lifo": bool(self.lifo)}
+            self.poolcfg = {"lifo": False, "recycle": -1, "size": 3, "overflow": 0, **pc}
+            rig = Rig(self.dialect, plan={}, clock=self.clock, poolclass=sp.QueuePool,
+                      pool_size=self.poolcfg["size"], max_overflow=self.poolcfg["overflow"], pool_timeout=0,
+                      pool_use_lifo=self.poolcfg["lifo"], pool_recycle=self.poolcfg["recycle"])
             self.rig = rig
             self.seen_ctx = []
             if self.listener != "none":
@@ -166,7 +169,7 @@ class Run:
         eng, fake, sa = rig.eng, rig.fake, rig.sa
         # pre-fill the pool: three idle connections "opened before the failure"
         rig.armed = False
-        pre = [eng.connect() for _ in range(3)]
+        pre = [eng.connect() for _ in range(self.poolcfg["size"])]
         for c in pre:
             c.exec_driver_sql("select 0")
             c.rollback()
@@ -464,7 +467,10 @@ def run(ctx):
             break
         dialect = ("psycopg2", "pymysql")[(i + ctx.shard) % 2]
         history = random_history(rng)
-        lifo = rng.random() < 0.4
+        # pool configuration crossed with the histories (pool_recycle far above the age any
+        # connection reaches on the virtual clock: it must not change anything)
+        lifo = {"lifo": rng.random() < 0.4, "recycle": rng.choice([-1, 3600, 100000]),
+                "size": rng.choice([2, 3, 3, 4]), "overflow": rng.choice([0, 0, 1])}
         listeners = LISTENERS if ctx.thorough else ["none"] + rng.sample(LISTENERS[1:], 2)
         enumerate_faults(ctx, dialect, history, lifo, listeners)
         if len(ctx.samples) < 3:
